@@ -172,6 +172,26 @@ def _get_used_variables(stmt: Statement) -> frozenset[str]:
     return stmt.used_variables()
 
 
+def _get_asserted_variables(stmt: Statement) -> set[str]:
+    """Return all variable names read by the assertions attached to *stmt*.
+
+    The source of a reference assertion is a variable name or a dotted
+    attribute path rooted at one (e.g. ``var_0.field``).
+
+    Args:
+        stmt: The statement to inspect.
+
+    Returns:
+        The set of root names read by the statement's assertions.
+    """
+    roots: set[str] = set()
+    for assertion in stmt.assertions:
+        source = getattr(assertion, "source", None)
+        if isinstance(source, str):
+            roots.add(source.split(".", 1)[0])
+    return roots
+
+
 def _uses_variable(stmt: Statement, var_name: str) -> bool:
     """Return True if *var_name* is used (read) anywhere in *stmt*'s CST.
 
@@ -598,15 +618,15 @@ class TestCase:  # noqa: PLR0904
         for i in range(len(self._statements) - 1, -1, -1):
             stmt = self._statements[i]
             bv = stmt.bound_variable
+            # Assertions are checked right after the statement: whatever they read
+            # (this binding or an earlier one, possibly through an attribute path)
+            # is alive here; dropping such a binding would break the oracle.
+            alive_vars.update(_get_asserted_variables(stmt))
 
             if bv is not None:
                 if bv in alive_vars:
                     # Variable is used later. It is NOT alive before this assignment.
                     alive_vars.remove(bv)
-                    alive_vars.update(_get_used_variables(stmt))
-                elif any(getattr(assertion, "source", None) == bv for assertion in stmt.assertions):
-                    # Variable is only read by an assertion of this very statement;
-                    # dropping the binding would drop (or break) the oracle.
                     alive_vars.update(_get_used_variables(stmt))
                 else:
                     # Variable is NOT used later. Transform Assign to Expr.
